@@ -38,9 +38,11 @@ where
           if *enable.read().unwrap() {
             sctl_next.sink_next(x);
           } else {
-            if f.call(x.clone()) {
-              sctl_next.sink_next(x);
+            // skip while the predicate holds; the first item for which it is false
+            // (and everything after it) passes
+            if !f.call(x.clone()) {
               *enable.write().unwrap() = true;
+              sctl_next.sink_next(x);
             }
           }
         },
